@@ -81,7 +81,9 @@ bool exec_case(const uint8_t *d, size_t n, FailInfo &fi) {
     { // fill byte of fresh malloc memory for this case: a function of the case bytes (replays agree)
       static const int fills[] = {-1, -1, 0x01, 0x02, 0x03, 0x7f, 0x80, 0xff};
       uint32_t h = 2166136261u; for (size_t i = 0; i < n; i++) h = (h ^ d[i]) * 16777619u;
-      vf_malloc_fill = fills[(h >> 7) & 7]; }
+      vf_malloc_fill = fills[(h >> 7) & 7];
+      g_via_members = (h >> 12) & 1;                       // container calls through the object's member pointers (via_members.hpp)
+      if (g_via_members) c.tag("calls_via_member_pointers"); }
     try {
         dirty_stack();
         sig = guarded([&] { run_case(s, c); }, g_cpu);
